@@ -121,8 +121,10 @@ Spec == Init /\ [][Next]_vars
 (* in = its input, pa = the proportional term of the previous call if      *)
 (* that call slewed, 0 if it stepped or if there was none.                 *)
 (*                                                                         *)
-(*  Kind        every call actuates exactly once: a step or a frequency    *)
-(*              write, never anything else (no ADJ_OFFSET, no status bits) *)
+(*  Kind        every call actuates: either one step (ADJ_SETOFFSET with   *)
+(*              ADJ_NANO; a frequency may be written along with it) or     *)
+(*              exactly one frequency write (ADJ_FREQUENCY); no other      *)
+(*              adjtimex mode (ADJ_OFFSET, status bits, ...) is ever used  *)
 (*  StepRule    it steps iff stepping is enabled (threshold # 0) and       *)
 (*              |offset| >= threshold; otherwise it slews                  *)
 (*  StepAmount  a step moves the clock by exactly the measured offset      *)
